@@ -1,7 +1,7 @@
 (* C40 — facts about the regenerated summaries (gen/C40_summaries.v), closed
    by evaluation of the verified checker. *)
 From Coq Require Import List Bool NArith String.
-From ELA Require Import model.C40_Locks model.C40_Known proof.C40_Locks gen.C40_summaries.
+From ELA Require Import model.C40_Locks model.C40_Known model.C40_Ckpt proof.C40_Locks proof.C40_Ckpt gen.C40_summaries.
 (* not used here: required so that `make props/C40.vo` also (re)builds the
    correspondence file the case shards import *)
 From ELA Require corr.C40_corr.
@@ -62,3 +62,6 @@ Proof.
       assert (existsb (fun s2 => negb (pair_ok s1 s2)) g = true); [|congruence].
       apply existsb_exists. exists s2. rewrite P. auto.
 Qed.
+
+Lemma checkpoint_handoff : ~ off_path_live_read ckpt_table.
+Proof. apply ckpt_sound. vm_compute. reflexivity. Qed.
